@@ -408,6 +408,206 @@ def held_rounds(ctx, n_rounds):
         check(ctx, "held-writer", root, plan, errors, results, case)
 
 
+# ---------------------------------------------------------------- one writer loses source files while the others are mid-transfer
+def run_faulted(ctx, tag, sizes, nshared, lose, park_at, shared_state):
+    """Schedule family: writer 0 stages its directory, makes its status query (the store is empty: everything is new) and is
+    stopped right before its first `add` into the store.  Only then do the healthy writers (writer 1, optionally writer 2)
+    start: each stages and transfers its directory and is parked inside its `add` right before its `park_at[w]`-th
+    write-protection (its copies are all in place by then; never parked when it protects fewer objects: it simply finishes).
+    When every healthy writer is parked or done, the files of writer 0 holding the contents `lose` vanish from its workspace
+    (an I/O fault of writer 0 alone, hit before any destination is opened) and writer 0 goes on: it cannot add those
+    objects.  When writer 0 has returned, the parked writers are released.  Events only, no sleeps: apart from the two
+    healthy writers racing each other up to their park points the schedule is fully determined."""
+    from dvc_data.hashfile.build import build
+    from dvc_data.hashfile.db.local import LocalHashFileDB
+    from dvc_data.hashfile.state import State
+    from dvc_data.hashfile.transfer import transfer
+
+    root = ctx.mkdtemp()
+    plan = held_workspaces(root, tag, sizes, nshared)
+    fs = stores.fs_local()
+    odb_path = os.path.join(root, "odb")
+    os.makedirs(odb_path)
+    WAIT = 60
+    at_add = threading.Event()      # writer 0 has its status and is about to add (or is gone)
+    parked = {w: threading.Event() for w in range(1, len(sizes))}   # writer w is parked before a write-protection (or is gone)
+    w0_back = threading.Event()     # writer 0 has returned from its transfer (or is gone)
+    info = {"parked_before_protect": {}, "protects": dict.fromkeys(parked, 0), "stuck": []}
+    d0, files0 = plan[0][0]
+    lost_paths = [os.path.join(d0, *k) for k, c in files0.items() if c in lose]
+    outcome = {}                    # writer -> ("ok", tree oid, transferred, failed) | ("raised", text)
+    one_state = State(root_dir=root, tmp_dir=os.path.join(root, "state")) if shared_state else None
+
+    def writer(w):
+        st = one_state or State(root_dir=root, tmp_dir=os.path.join(root, "state"))
+        try:
+            if w > 0 and not at_add.wait(WAIT):
+                info["stuck"].append("writer 0 never got to its first add")
+            odb = LocalHashFileDB(fs, odb_path, state=st)
+            if w == 0:
+                orig_add, first = odb.add, [True]
+
+                def held_add(*a, **kw):
+                    if first[0]:
+                        first[0] = False
+                        at_add.set()
+                        for v, ev in parked.items():
+                            if not ev.wait(WAIT):
+                                info["stuck"].append("writer %d was never parked and never finished" % v)
+                        for p in lost_paths:
+                            os.unlink(p)
+                    return orig_add(*a, **kw)
+
+                odb.add = held_add
+            else:
+                orig_protect = odb.protect
+
+                def held_protect(path):
+                    k = info["protects"][w]
+                    info["protects"][w] += 1
+                    if k == park_at[w]:
+                        info["parked_before_protect"][w] = k
+                        parked[w].set()
+                        if not w0_back.wait(WAIT):
+                            info["stuck"].append("writer 0 never returned")
+                    return orig_protect(path)
+
+                odb.protect = held_protect
+            d, files = plan[w][0]
+            staging, meta, obj = build(odb, d, fs, "md5")
+            res = transfer(staging, odb, {obj.hash_info}, shallow=False)
+            outcome[w] = ("ok", obj.oid, sorted(h.value for h in res.transferred), sorted(h.value for h in res.failed))
+        except BaseException as e:  # noqa: BLE001
+            outcome[w] = ("raised", "%s: %s" % (type(e).__name__, e))
+        finally:
+            if w == 0:      # never leave the others waiting for a writer that is gone
+                at_add.set()
+                w0_back.set()
+            else:
+                parked[w].set()
+            if one_state is None:
+                st.close()
+
+    ts = [threading.Thread(target=writer, args=(w,)) for w in range(len(plan))]
+    try:
+        for t in ts:
+            t.start()
+        for t in ts:
+            t.join(timeout=4 * WAIT)
+        alive = [t for t in ts if t.is_alive()]
+    finally:
+        at_add.set()
+        w0_back.set()
+        for ev in parked.values():
+            ev.set()
+    if alive or info["stuck"]:
+        if one_state is not None:
+            one_state.close()
+        raise core.Infra("faulted-writer round did not follow its schedule: %s" % (info["stuck"] or "a writer is stuck"))
+    probs, valid, present = audit(root)
+
+    # multi-step history: the lost files are back, writer 0 tries again (undisturbed)
+    for p in lost_paths:
+        with open(p, "wb") as f:
+            f.write(files0[tuple(os.path.relpath(p, d0).split(os.sep))])
+    st = one_state or State(root_dir=root, tmp_dir=os.path.join(root, "state"))
+    errors, results = [], [(plan[w][0][0], outcome[w][1]) for w in range(1, len(plan)) if outcome[w][0] == "ok"]
+    try:
+        odb = LocalHashFileDB(fs, odb_path, state=st)
+        staging, meta, obj = build(odb, d0, fs, "md5")
+        res = transfer(staging, odb, {obj.hash_info}, shallow=False)
+        if res.failed:
+            errors.append("writer 0, second attempt: transfer reported failures: %s" % sorted(h.value for h in res.failed)[:5])
+        results.append((d0, obj.oid))
+    except BaseException as e:  # noqa: BLE001
+        errors.append("writer 0, second attempt: %s: %s" % (type(e).__name__, e))
+    finally:
+        st.close()
+    return root, plan, outcome, info, (probs, set(valid), set(present)), errors, results
+
+
+def faulted_rounds(ctx, n_rounds):
+    """A writer that cannot read some of its own files has to say so - and that is all that may happen: everybody else
+    succeeds, and what they requested is in the store, complete, under its own name."""
+    rng = ctx.rng
+    for i in range(n_rounds):
+        sizes = [rng.randrange(2, 9), rng.randrange(2, 9)]
+        third_writer = rng.random() < 0.3
+        if third_writer:
+            sizes.append(rng.randrange(2, 12))
+        nshared = rng.randrange(1, min(sizes[0] - 1, sizes[1]) + 1)   # writer 0 has a file of its own: no two directories alike
+        # where writer 1 waits for writer 0's failure: before its first write-protection (every copy in place, nothing protected),
+        # before a later one, or nowhere (it has finished before writer 0 goes on)
+        modes = {1: ["first-protect", "later-protect", "nowhere"][i % 3]}
+        if third_writer:
+            modes[2] = rng.choice(["first-protect", "later-protect", "nowhere"])
+        park_at = {w: {"first-protect": 0, "later-protect": rng.randrange(1, sizes[w] + 1), "nowhere": 10**6}[m] for w, m in modes.items()}
+        common = [b for b in range(nshared)]
+        own = [b for b in range(nshared, sizes[0])]
+        # what writer 0 loses: contents it shares with the others and / or contents of its own, never nothing
+        if i % 2 == 0:
+            lose_idx = set(rng.sample(common, rng.randrange(1, len(common) + 1))) | {j for j in own if rng.random() < 0.3}
+        else:
+            lose_idx = {j for j in common if rng.random() < 0.3} | set(rng.sample(own, rng.randrange(1, len(own) + 1)))
+        shared_state = rng.random() < 0.5
+        tag = rng.randrange(10**6)
+        lose = {(b"held-%d-common-%d" % (tag, j)) if j < nshared else (b"held-%d-own-%d-%d" % (tag, 0, j)) for j in lose_idx}
+        root, plan, outcome, info, (probs, valid, present), errors, results = run_faulted(ctx, tag, sizes, nshared, lose, park_at, shared_state)
+        d0, files0 = plan[0][0]
+        lost = {md5hex(c) for c in lose}
+        case = {"mode": "faulted-writer", "run": i, "files_per_writer": sizes, "first_files_shared": nshared,
+                "writer_0_loses_files": sorted(lose_idx), "lost_objects": sorted(lost), "writers_park_before_protect": {str(w): k for w, k in park_at.items()},
+                "writers_were_parked_before_protect": {str(w): k for w, k in info["parked_before_protect"].items()},
+                "one_state_handle": shared_state, "outcomes": {str(w): outcome[w] for w in sorted(outcome)},
+                "workspaces": "ws-<w>-0: file i is 'held-%d-common-<i>' for i < first_files_shared else 'held-%d-own-<w>-<i>', plus "
+                              "copy_of_first = file 0; schedule: writer 0 status | writer 1 (and 2) up to their park points | writer 0 loses "
+                              "the files and adds | writer 1 (and 2) go on | files restored, writer 0 again" % (tag, tag)}
+        ctx.case(case)
+        for w, m in modes.items():
+            ctx.count("faulted-writer:writer-%d-parks=%s" % (w, m))
+            ctx.count("faulted-writer:writer-%d-was-parked=%s" % (w, w in info["parked_before_protect"]))
+        ctx.count("faulted-writer:loses-shared=%s loses-own=%s" % (any(j < nshared for j in lose_idx), any(j >= nshared for j in lose_idx)))
+        ctx.count("faulted-writer:one-state-handle=%s" % shared_state)
+        ctx.count("faulted-writer:writers=%d" % len(sizes))
+        # --- the store right after the concurrent phase
+        for p in probs:
+            ctx.oracle(False, case, p)
+        healthy_objs = set()
+        for w in range(1, len(plan)):
+            d, files = plan[w][0]
+            ents = gen.tree_entries(files)
+            toid = gen.canonical_oid(ents)
+            healthy_objs |= set(ents.values()) | {toid}
+            ok = outcome[w][0] == "ok" and not outcome[w][3]
+            ctx.oracle(ok, case, {"why": "a writer that lost nothing failed because another writer lost a file", "writer": w, "outcome": outcome[w]})
+            if not ok:
+                continue
+            ctx.oracle(outcome[w][1] == toid, case, {"why": "a writer's directory object does not list exactly what it staged", "writer": w,
+                                                    "got": outcome[w][1], "expected": toid})
+            missing = sorted((set(ents.values()) | {toid}) - valid)
+            ctx.oracle(not missing, case, {"why": "a writer succeeded, yet an object it requested is missing or invalid in the store "
+                                                  "(another writer's failed add took it away)", "writer": w, "missing": missing})
+            if toid in valid:
+                lst = json.loads(stores.read_obj(os.path.join(root, "odb"), toid))
+                ctx.oracle({e["relpath"]: e["md5"] for e in lst} == {"/".join(k): v for k, v in ents.items()}, case,
+                           {"why": "a directory object in the store lists something else than its writer staged", "oid": toid})
+        ents0 = gen.tree_entries(files0)
+        toid0 = gen.canonical_oid(ents0)
+        if ctx.oracle(outcome[0][0] == "ok", case, {"why": "the writer that lost files raised instead of reporting them", "outcome": outcome[0]}):
+            _, got0, transferred0, failed0 = outcome[0]
+            ctx.oracle(got0 == toid0, case, {"why": "a writer's directory object does not list exactly what it staged", "writer": 0})
+            ctx.oracle(set(failed0) == lost | {toid0}, case,
+                       {"why": "the writer that lost files does not report exactly the lost objects and its directory as failed",
+                        "reported": failed0, "lost": sorted(lost), "directory": toid0})
+            gone = sorted(set(transferred0) - valid)
+            ctx.oracle(not gone, case, {"why": "an object reported as transferred is missing or invalid in the store", "writer": 0, "missing": gone})
+        ctx.oracle(toid0 not in present, case, {"why": "the directory object of a writer that lost files is in the store", "oid": toid0})
+        extra = sorted(present - healthy_objs - (set(ents0.values()) - lost))
+        ctx.oracle(not extra, case, {"why": "unexpected objects in the store", "extra": extra})
+        # --- after the second attempt of writer 0 everything everybody requested is there
+        check(ctx, "faulted-writer", root, plan, errors, results, case)
+
+
 # ---------------------------------------------------------------- controlled interleavings (model correspondence)
 EMPTY_OID ="d41d8cd98f00b204e9800998ecf8427e"
 KIND_PCS = {"stat": {"stat", "restat"}, "read": {"read", "reread"}, "unlink": {"discard", "unlink", "rediscard"},
@@ -688,7 +888,13 @@ def run(ctx):
         "~300 files sharing contents with it (plus sometimes a free-running third); every directory listing below the store that "
         "shows the stopped writer's temporary file releases it and waits for its rename (the listing is stale when the lister goes "
         "on), the writer stops again at later copies, and is released for good when the other has finished; own state "
-        "handles or one shared handle. non-trivial = every run (heavy overlap by construction)"
+        "handles or one shared handle. Faulted-writer rounds: writer 0 is stopped after its status query, right before its first "
+        "add; writer 1 (2-8 files, 1..n of them shared with writer 0) stages and transfers and is parked before its first / a "
+        "later write-protection (copies in place) or finishes, sometimes next to a writer 2 with a park point of its own; then "
+        "files of writer 0 (shared contents and / or its own) vanish and it goes on; then the parked writers go on: writer 0 "
+        "reports exactly the lost objects and its directory as failed, every other writer succeeds and has all its objects in "
+        "the store; the files come back and writer 0's second attempt completes the store. "
+        "non-trivial = every run (heavy overlap by construction)"
     )
     ctx.assumptions = ["the GIL, SQLite busy-timeouts and C-level races are not exhibited by the model; the perturbed runs are supporting evidence",
                        "a second writer's reflink probe on a name another writer is just creating is a transient the step model does not show"]
@@ -723,6 +929,7 @@ def run(ctx):
     held_rounds(ctx, ctx.n(5, 30))
     controlled(ctx, ctx.n(40, 600))
     verify_two_writers(ctx)
+    faulted_rounds(ctx, ctx.n(9, 60))
 
 
 def search(ctx):
